@@ -275,6 +275,10 @@ type ReplayEvent struct {
 	SameHash  bool   `json:"sameHash"`  // later block with the resubmission == without it
 	SameBytes bool   `json:"sameBytes"` // the encoding is byte-identical to the executed transaction
 	Parses    bool   `json:"parses"`
+	// the same bytes once more, one block after the first resubmission was delivered (and refused): -2 = not attempted
+	Check2    int64 `json:"check2"`
+	Deliver2  int64 `json:"deliver2"`
+	SameHash2 bool  `json:"sameHash2"`
 }
 
 // replayMode (C05): executed transactions are resubmitted in every encoding class.
@@ -317,7 +321,8 @@ func replayMode(args []string) {
 				if nb == nil {
 					continue
 				}
-				ev := ReplayEvent{T: i + 1, Kind: rec.Req.Kind, Enc: enc, H: int64(pk.bi + 1), Later: later, SameBytes: string(nb) == string(rec.B.Bytes), Parses: true}
+				ev := ReplayEvent{T: i + 1, Kind: rec.Req.Kind, Enc: enc, H: int64(pk.bi + 1), Later: later, SameBytes: string(nb) == string(rec.B.Bytes), Parses: true,
+					Check2: -2, Deliver2: -2}
 				p, dir, err := prefixProc(sc, ref, li)
 				if err != nil {
 					r.err = err
@@ -337,6 +342,25 @@ func replayMode(args []string) {
 					} else {
 						ev.Deliver = int64(br.Txs[0].Code)
 						ev.SameHash = br.Hash == ref.Blocks[li].Hash
+						// what the node recorded about the refused resubmission must not make it forget the execution:
+						// the same bytes a third time, in the next block
+						if ev.SameHash && ev.SameBytes && li+1 < len(ref.Concrete) {
+							cr2 := p.Call(&vapp.Cmd{Op: "check", Tx: nb})
+							if !cr2.Alive {
+								ev.Check2, ev.Deliver2 = -1, -1
+							} else {
+								ev.Check2 = int64(cr2.Tx.Code)
+								nx := ref.Concrete[li+1]
+								nx.Txs = append([][]byte{nb}, nx.Txs...)
+								br2 := p.Call(&vapp.Cmd{Op: "run_block", Block: &nx})
+								if !br2.Alive {
+									ev.Deliver2 = -1
+								} else {
+									ev.Deliver2 = int64(br2.Txs[0].Code)
+									ev.SameHash2 = br2.Hash == ref.Blocks[li+1].Hash
+								}
+							}
+						}
 					}
 				}
 				p.Stop()
